@@ -1,7 +1,7 @@
 SPECIFICATION Spec
 CONSTANTS
   Cls = {"P"}
-  MsgKinds = {"kwtemplate", "kwcustom"}
+  MsgKinds = {"kwtemplate", "kwcustom", "kwattr"}
   Outs = {"T", "F"}
   DelayCls = {}
   Vals = {"o1"}
